@@ -203,6 +203,9 @@ def r2(ctx: Ctx) -> None:
             # a level computed from something other than price and tick size of this market (e.g. a cached
             # reciprocal): whether it equals price / tick_size is not decidable here
             ctx.unrec(f, st[0].node, label, "the tick level is not written as floor/ceil of order.price / self.tick_size", short(v))
+        elif level is not None and any(s_[0] == "call" and s_[1][0] == "attr" and "convert_to_tick_level" in s_[1][2] and key(strip_ver(s_[1][1])) != "self" for s_ in subterms(level)):
+            # the level is asked of another object (e.g. the order book): its rounding is that object's, not decided here
+            ctx.unrec(f, st[0].node, label, "the tick level is computed by a conversion method of another object than the market", short(v))
         elif level is None:
             ctx.violated(f, st[0].node, label, expd, short(v))
         else:
